@@ -119,14 +119,15 @@ def main(argv=None):
     known = [k for k in _load_known() if k.get("property") == pid]
     known_active = [k for k in known if k.get("status") == "known"]
     tot = dict(paths=0, decisions=0, q_feas=0, q_oblig=0, q_witness=0, solver_s=0.0,
-               obligations=0, discharged=0, validated=0, aborted=0)
+               obligations=0, discharged=0, validated=0, aborted=0, cvc5_checked=0, cvc5_agree=0, cvc5_unknown=0,
+               oneshot=0)
     funcs, reach, samples, rewrites = set(), set(), [], {}
     inconclusive, mismatches, new_vios, known_hits = [], [], [], {}
     unrepro = []
     for r in results:
         st = r.get("stats", {})
         for k in ("paths", "decisions", "q_feas", "q_oblig", "q_witness", "solver_s",
-                  "obligations", "discharged", "aborted"):
+                  "obligations", "discharged", "aborted", "cvc5_checked", "cvc5_agree", "cvc5_unknown", "oneshot"):
             tot[k] += st.get(k, 0)
         tot["validated"] += r.get("validated", 0)
         funcs.update(r.get("functions", []))
@@ -202,6 +203,9 @@ def main(argv=None):
                 queries=dict(feasibility=tot["q_feas"], obligation=tot["q_oblig"],
                              witness=tot["q_witness"]),
                 solver_time_s=round(tot["solver_s"], 3),
+                second_solver=dict(cvc5_rechecked=tot["cvc5_checked"], agree=tot["cvc5_agree"],
+                                   unknown=tot["cvc5_unknown"]),
+                oneshot_queries=tot["oneshot"],
                 functions_encoded=sorted(funcs),
                 reach_markers=sorted(reach),
                 bounds=meta.get("bounds", {}).get(args.tier, meta.get("bounds")),
